@@ -66,22 +66,57 @@ def checkIv (consts : List (String × String)) (unit : TUnit) (iv : PIv) : Excep
   let (db, de) := i.durNs unit
   if b < 0 ∨ db > de then throw (.semantic "0 <= begin <= end") else pure i
 
+/-- Attributes of a number that are numbers again (`operator.attrgetter(tail)(var)` must be an int or a float): a float has
+    `real` and `imag` (floats), an int also `numerator` and `denominator` (ints); a complex number has `real` and `imag`
+    (floats) but is not a number itself. -/
+def attrType (ty attr : String) : Option String :=
+  if ty = "float" then (if attr = "real" ∨ attr = "imag" then some "float" else none)
+  else if ty = "int" then (if attr = "real" ∨ attr = "imag" ∨ attr = "numerator" ∨ attr = "denominator" then some "int" else none)
+  else if ty = "complex" then (if attr = "real" ∨ attr = "imag" then some "float" else none)
+  else none
+
+def attrChain (ty : String) : List String → Option String
+  | [] => some ty
+  | a :: rest => match attrType ty a with
+                 | some t => attrChain t rest
+                 | none => none
+
+/-- An identifier `head.f1.f2…` in an expression (`expr = true`) or as the name of an assertion: `x.` (empty tail) is `x`;
+    the head has to be a declared variable, and the chain of attributes has to lead from a value of its type to an int or a
+    float (RTAMTException otherwise: undeclared head of unknown type, AttributeError, field not of type int or float).  In an
+    expression a declared variable without tail has to be an int or a float itself. -/
+def checkDotted (vars : List (String × String)) (expr : Bool) (s : String) : Except ParseErr Unit :=
+  match s.splitOn "." with
+  | [] => .ok ()
+  | [_] => match vars.lookup s with
+           | some ty => if ty = "float" ∨ ty = "int" then .ok () else .error (.semantic "variable is not of type int or float")
+           | none => .ok ()                                   -- implicitly declared as float
+  | head :: tail =>
+      let tail := if tail = [""] then [] else tail
+      match vars.lookup head with
+      | none => if tail = [] then .ok () else .error (.semantic "refers to undeclared variable of unknown type")
+      | some ty =>
+          match attrChain ty tail with
+          | some t => if t = "float" ∨ t = "int" then .ok ()
+                      else if expr ∨ tail ≠ [] then .error (.semantic "not of type int or float") else .error (.semantic "not of type int or float")
+          | none => .error (.semantic "field access on a value that has no such numeric attribute")
+
 /-- All intervals of an expression, in the order the visitor meets them (children first). -/
-def PE.check (consts : List (String × String)) (unit : TUnit) : PE → Except ParseErr Unit
+def PE.check (vars : List (String × String)) (consts : List (String × String)) (unit : TUnit) : PE → Except ParseErr Unit
   -- `x.f` reads the field `f` of an object-typed variable `x`; only float / int variables are modelled, for which
   -- the visitor raises RTAMTException (undeclared head of unknown type, or attribute error on a number)
-  | .id s => if s.contains '.' then .error (.semantic "field access on a variable that is not an object") else .ok ()
+  | .id s => checkDotted vars true s
   | .lit s => match litToRat s with | some _ => .ok () | none => .error (.semantic "bad literal")
   | .pre _ iv e => do
-      PE.check consts unit e
+      PE.check vars consts unit e
       match iv with
       | some i => discard (checkIv consts unit i)
       | none => pure ()
-  | .fn1 _ e => PE.check consts unit e
-  | .fn2 _ e1 e2 => do PE.check consts unit e1; PE.check consts unit e2
+  | .fn1 _ e => PE.check vars consts unit e
+  | .fn2 _ e1 e2 => do PE.check vars consts unit e1; PE.check vars consts unit e2
   | .bin _ iv l r => do
-      PE.check consts unit l
-      PE.check consts unit r
+      PE.check vars consts unit l
+      PE.check vars consts unit r
       match iv with
       | some i => discard (checkIv consts unit i)
       | none => pure ()
@@ -91,20 +126,30 @@ def PE.check (consts : List (String × String)) (unit : TUnit) : PE → Except P
 def parseAndCheck (apiConsts : List (String × String)) (unit : TUnit) (text : String) :
     Except ParseErr PSpec := do
   let spec ← parseText text
+  -- entries `@x = type` of the list given by the caller are the variables declared through the API (`declare_var`)
+  let apiVars := apiConsts.filterMap (fun p => if p.1.startsWith "@" then some ((p.1.drop 1).toString, p.2) else none)
+  let apiConsts := apiConsts.filter (fun p => !p.1.startsWith "@")
   let consts := spec.decls.foldl (fun acc d => match d with
       | .const _ n v => (n, v) :: acc
       | _ => acc) apiConsts
+  let declVars := spec.decls.foldl (fun acc d => match d with
+      | .var _ ty n => (n, ty) :: acc
+      | _ => acc) apiVars
   -- `declare_var` → `create_var_from_name`: only float / int / complex are built in; any other type
   -- must have been imported (imports are not modelled) — RTAMTException otherwise
   for d in spec.decls do
     match d with
     | .var _ ty _ => if ty = "float" ∨ ty = "int" ∨ ty = "complex" then pure () else throw (.semantic "type not imported")
     | _ => pure ()
+  -- the name of an assertion is a (float) variable for the assertions that follow
+  let mut vars := declVars
   for (nm, e) in spec.asserts do
+    PE.check vars consts unit e
     match nm with
-    | some n => if n.contains '.' then throw (.semantic "field access on a variable that is not an object") else pure ()
+    | some n =>
+        checkDotted vars false n
+        if !(n.contains '.') && (vars.lookup n).isNone then vars := (n, "float") :: vars
     | none => pure ()
-    PE.check consts unit e
   pure spec
 
 /-! ### serialisation (prefix notation, one token per item) -/
